@@ -554,6 +554,7 @@ def run(ctx):
     recorded_operands(ctx, 'C08.R3')
     declaration_refusals(ctx, 'C08.R7')
     operands_recorded_as_given(ctx, 'C08.R7')
+    every_declaration_is_recorded(ctx, 'C08.R7')
     # ---------------------------------------------------------------- R4 order
     loops = [s for s in bake.node.body if isinstance(s, ast.For)]
     step_loops = [l for l in loops if path_from_param(ff.resolved.get(id(l))) == ('self', ['steps'])]
@@ -562,19 +563,7 @@ def run(ctx):
            'bake runs the steps in one loop over self.steps itself (no copy, sort, reverse or slice)', raw_ok,
            fact=f"{len(step_loops)} loop(s) over self.steps" + (f": for .. in {unparse(step_loops[0].iter)}" if step_loops else ''),
            why='steps are not executed once each in the order they were added', key='step loop')
-    muts = []
-    for m in model.cls('Recipe').methods.values():
-        for n in ast.walk(m.node):
-            if isinstance(n, ast.Call) and isinstance(n.func, ast.Attribute) and n.func.attr in MUTATOR_METHODS and \
-                    unparse(n.func.value) == 'self.steps':
-                muts.append((m, n))
-            if isinstance(n, (ast.Assign, ast.AugAssign)) and m.name != '__init__':
-                tg = n.targets if isinstance(n, ast.Assign) else [n.target]
-                if any(unparse(t).startswith('self.steps') for t in tg):
-                    muts.append((m, n))
-    ok = bool(muts) and all(isinstance(n, ast.Call) and n.func.attr == 'append' for m, n in muts)
-    ctx.ob('C08.R4', 'Recipe', 0, 'steps are only ever appended', ok, fact=f"{len(muts)} mutation(s) of self.steps",
-           why='the order of the steps can change after they were added', key='steps mutation', nontrivial=False)
+    steps_only_appended(ctx, 'C08.R4')
     # ---------------------------------------------------------------- R5 one application per step
     before = len(ctx.obs)
     record_protocol(ctx, 'C08.R5x', once_rule='C08.R5')
@@ -640,3 +629,65 @@ def operands_recorded_as_given(ctx, rule):
                            key=f"text operand {p} not verbatim")
     from .common import floor as _floor
     _floor(ctx, 'text operands recorded by declarations', n, 4)
+
+
+def every_declaration_is_recorded(ctx, rule):
+    """Each call of a declaring method that returns normally has added its step: no `return` leaves the method before
+    `self.steps.append(RecipeStep(..))` (a declaration judged to be a repetition or a no-op and silently dropped is an
+    operation the eager run would have carried out)."""
+    model = ctx.model.plain()
+    n = 0
+    for fi in model.funcs.values():
+        if fi.cls is None or fi.cls.name != 'Recipe' or fi.parent is not None:
+            continue
+        appends = [c for c in walk_no_nested(fi.node) if isinstance(c, ast.Call) and isinstance(c.func, ast.Attribute) and
+                   c.func.attr == 'append' and c.args and any(isinstance(y, ast.Call) and isinstance(y.func, ast.Name) and
+                                                              y.func.id == 'RecipeStep' for y in ast.walk(c.args[0]))]
+        if not appends:
+            continue
+        n += 1
+        first = min(a.lineno for a in appends)
+        early = [r for r in walk_no_nested(fi.node) if isinstance(r, ast.Return) and r.lineno < first]
+        # an append under a condition: some path may pass it by
+        cond = [a for a in appends if any(isinstance(p, (ast.If, ast.For, ast.While, ast.Try)) for p in _ancestors(a, fi.node))]
+        ok = not early and not cond
+        ctx.ob(rule, ctx.model.funcs.get(fi.qualname, fi), (early[0].lineno if early else (cond[0].lineno if cond else first)),
+               f"{fi.qualname}: every normal exit has recorded the step", ok,
+               fact=(f"`return` at line {early[0].lineno} leaves before the step is appended (line {first})" if early else
+                     ('the append is conditional' if cond else f"the append at line {first} is on every path to the exit")),
+               why='a declaration that is dropped is a step the eager sequence of calls performs and bake does not',
+               key='declaration returns without recording')
+    from .common import floor as _floor
+    _floor(ctx, 'declaring methods of Recipe', n, 6)
+
+
+def _ancestors(node, top):
+    p = getattr(node, 'parent', None)
+    while p is not None and p is not top:
+        yield p
+        p = getattr(p, 'parent', None)
+
+
+def steps_only_appended(ctx, rule):
+    """`Recipe.steps` only grows at its end: the stages are recorded as index ranges into it (`slice(start, len(steps))`),
+    so removing, inserting, reordering or replacing the list shifts every stage recorded after that point."""
+    model = ctx.model
+    muts = []
+    for m in model.cls('Recipe').methods.values():
+        for n in ast.walk(m.node):
+            if isinstance(n, ast.Call) and isinstance(n.func, ast.Attribute) and n.func.attr in MUTATOR_METHODS and \
+                    unparse(n.func.value) == 'self.steps':
+                muts.append((m, n))
+            if isinstance(n, (ast.Assign, ast.AugAssign)) and m.name != '__init__':
+                tg = n.targets if isinstance(n, ast.Assign) else [n.target]
+                if any(unparse(t).startswith('self.steps') for t in tg):
+                    muts.append((m, n))
+            if isinstance(n, ast.Delete) and any(unparse(t).startswith('self.steps') for t in n.targets):
+                muts.append((m, n))
+    ok = bool(muts) and all(isinstance(n, ast.Call) and n.func.attr == 'append' for m, n in muts)
+    offenders = [(m, n) for m, n in muts if not (isinstance(n, ast.Call) and n.func.attr == 'append')]
+    where = offenders[0] if offenders else None
+    ctx.ob(rule, (where[0] if where else 'Recipe'), (where[1].lineno if where else 0), 'steps are only ever appended', ok,
+           fact=(f"`{unparse(where[1], 70)}`" if where else f"{len(muts)} mutation(s) of self.steps, all of them append"),
+           why='the order or the positions of the steps change after they were added: the stages (index ranges into the list) '
+               'and the timeframes of the queries then name other steps', key='steps mutation', nontrivial=False)
